@@ -21,6 +21,8 @@ NOTES = {
     ('w6-', 'C08', 2): 'same change as C07/w6-1: caught by the unlock-yield pass of C08',
     ('w6-', 'C08', 3): 'caught by C05 (the same change is C05/w6-1)',
     ('w6-', 'C15', 2): 'not observable in the emulator: the reset reasons the moved code tests for ("timeout", "failure") are spelled "Timeout" / "ReleaseFail" in RIE mode, a reset never emits that event',
+    ('w10-', 'C05', 1): 'missed by C05 (also with 150 000 runs): the expiry has to land between the dispatch check and the re-arming of the barriers of an invocation that follows a completed one; caught by C11 (C11.stuck-waiter: a cancellation of a numerically open gate is lost once the count changes)',
+    ('w10-', 'C11', 1): 'MISSED by every check (C11, C12, C18 tried): needs a deadline that has already passed when the wait starts; the generators only produce deadlines in the future (a wait entered after its deadline finds both cases of the select ready when the gate is open, which would not replay)',
     ('w9-', 'C06', 2): 'missed by C06 (no extension of its matrix answers SHUTDOWN with exit/error); the same change is C08/w8-2 and C15/w8-1, caught by C08 (suffix differs) and C15 (error type of the next initialisation)',
     ('w9-', 'C10', 2): 'caught as an emulator crash (second initialisation of a sandbox in use)',
     ('w7-', 'C13', 2): 'not observable in the emulator: the account id of the init request is always empty in RIE mode (cmd/aws-lambda-rie never sets it), the field is omitted from every register response whatever the cache holds',
@@ -78,10 +80,10 @@ s = '''# Seeded breakages
 
 Each directory holds source changes written by independent sub-agents that were given only the text of that
 property and a scratch worktree (nothing from /verif): `patchN.diff`, `demoN.md` (what breaks, what is needed for it
-to show, a throw-away demonstration), `metaN.json`; later waves carry the prefix `w2-` ... `w9-` (the seventh to ninth wave have `w7-demoN_test.go` / `w8-demoN_test.go` / `w9-demoN_test.go` and `-notes.md` instead of `demoN.md`).
+to show, a throw-away demonstration), `metaN.json`; later waves carry the prefix `w2-` ... `w10-` (the seventh to ninth wave have `w7-demoN_test.go` / `w8-demoN_test.go` / `w9-demoN_test.go` and `-notes.md` instead of `demoN.md`).
 Every patch compiles and passes the unedited test suite. `RESULTS*.txt` hold the output of
 `scripts/seedcheck.sh <patch> <ID>` (quick tier of the property's own check against a scratch worktree with the
-patch applied) on the current tree; `scripts/seeded_matrix_wave{1,2,3,4,5,6,7,8,9}.sh` regenerate them, this file is regenerated by
+patch applied) on the current tree; `scripts/seeded_matrix_wave{1,...,10}.sh` regenerate them, this file is regenerated by
 `scripts/seeded_readme.py`.
 
 '''
@@ -93,7 +95,8 @@ for title, prefix, fname in (('First wave (18 properties, 54 patches)', '', 'RES
                              ('Sixth wave (8 properties, 24 patches; concurrency and ordering mistakes)', 'w6-', 'RESULTS-wave6.txt'),
                              ('Seventh wave (8 properties, 16 patches; history, ordering and boundary dependent changes)', 'w7-', 'RESULTS-wave7.txt'),
                              ('Eighth wave (4 properties, 8 patches; history and sequence dependent changes)', 'w8-', 'RESULTS-wave8.txt'),
-                             ('Ninth wave (4 properties, 8 patches; combination and phase dependent changes)', 'w9-', 'RESULTS-wave9.txt')):
+                             ('Ninth wave (4 properties, 8 patches; combination and phase dependent changes)', 'w9-', 'RESULTS-wave9.txt'),
+                             ('Tenth wave (4 properties; phase, sequence and process-behaviour dependent changes)', 'w10-', 'RESULTS-wave10.txt')):
     t, c, n = table(prefix, fname)
     s += f'## {title}\n\n{c} of {n} caught by the quick tier of the own check.\n\n{t}\n'
 open(os.path.join(ROOT, 'README.md'), 'w').write(s)
